@@ -100,6 +100,9 @@ func VH_distinct_StreamBB() {
 	c.Reset()
 	c.rng = src
 	vAssert(c.Len() == 0 && c.Count() == 0, "Reset empties the counter")
+	if size < 1 {
+		return // a buffer of size zero has no exact regime
+	}
 	d0 := src.draws
 	for i := 0; i < size-1; i++ {
 		c.Add(1000 + i)
